@@ -22,7 +22,9 @@ Two tiers of evidence besides the Lean theorems (Props/C14.lean over Model/Hidde
       * in this process through the Acelyzer API: directly, twice in a row, after an unrelated
         scenario `A`, after an `A` that aborts mid-pipeline (B/E mismatch during ingestion; bad `Peer`
         with --flow during the drain phase), after an `A` that used the same input path with another
-        dialect,
+        dialect, after a complete `A` of the OTHER input dialect in both orders (FLEX run after a
+        torch-profiler trace with kernel / Memcpy (HtoD) / Memcpy (DtoH) events, and such a TORCH run
+        after a FLEX scenario) — dialect-dependent lookups cached per process would show here,
       * from a directory whose listing order is reversed (only where a file system with
         creation-order listing is available, e.g. /dev/shm; else skipped and noted),
     and `traceEvents` plus every CSV are compared byte for byte with the reference.  Nothing is
@@ -59,6 +61,9 @@ THEOREMS = [
     "AiuVerif.C14.leftover_leaks_without_reset",
     "AiuVerif.C14.hash_collision_merges",
     "AiuVerif.C14.unregistered_key_sees_history",
+    "AiuVerif.C14.memo_invisible",
+    "AiuVerif.C14.memo_history_invisible",
+    "AiuVerif.C14.memo_keyed_by_category_only_leaks",
 ]
 RULE = ("stage level: histories of 1..4 runs (exhaustive two-run histories over a small graph set + random) on the real "
         "EventProcessor/Engine/barrier singleton/job registry, runs may abort after n events, with/without -I, with/without "
@@ -74,6 +79,10 @@ TRUSTED = ["the list of hidden inputs (string hash, shared barrier content, job 
            "were registered by the run itself; both excluded branches have a Lean witness"]
 ASSUMPTIONS = ["CPython dict insertion order; 64-bit hash collisions among a run's (name, pid) keys do not occur"]
 NOT_YET_PROVED = ["completeness of the hidden-input list (cannot be proved; established by the differential runs only)",
+                  "dialect-dependent classification (PipelineContextTool.is_category) reads the dialect through the job map only in the "
+                  "current code (a jobAnnot lookup in the model); that no process-level cache sits in that path is established by the "
+                  "cross-dialect history differential (FLEX after TORCH, TORCH after FLEX) only - memo_invisible / "
+                  "memo_keyed_by_category_only_leaks state when such a cache would be harmless and that one keyed by the category name alone is not",
                   "pipeline stages outside the modelled core that use hash(str) as a dictionary key (rcu_utilization fingerprints, "
                   "iteration_detect letters) are covered by the hash-seed differential only"]
 TECHNIQUE = "Lean 4 proof (hidden inputs as explicit parameters; induction over pipeline, input and history) + model/implementation correspondence run + differential oracle"
@@ -374,9 +383,36 @@ def hist_oracle(ctx, case, outs):
 # (2) the differential experiment (oracle on the real CLI / API)
 # =============================================================================================
 
+def torch_trace(n=4, rank=0, seed=0):
+    """a torch-profiler style trace (TORCH dialect: it has deviceProperties) with the event kinds whose
+    classification differs between the dialects: cat "kernel" slices, `Memcpy (HtoD)` / `Memcpy (DtoH)`
+    copies on the device pid, cpu_op / cuda_runtime slices on the host pid; pids/tids as the profiler emits"""
+    import random
+    rnd = random.Random(seed)
+    host = 4000 + rnd.randrange(1000)
+    ev = [{"ph": "M", "name": "process_name", "pid": host, "tid": 0, "ts": 0, "args": {"name": "python"}},
+          {"ph": "M", "name": "process_name", "pid": 0, "tid": 0, "ts": 0, "args": {"name": "AIU 0"}}]
+    t = 1000.0 + 16 * rnd.randrange(50)
+    for k in range(n):
+        ext, corr = k + 1, 100 + k
+        ev.append({"ph": "X", "cat": "cpu_op", "name": rnd.choice(["aten::mm", "aten::add"]), "pid": host, "tid": host, "ts": t,
+                   "dur": 30.0, "args": {"External id": ext, "Sequence number": k}})
+        ev.append({"ph": "X", "cat": "cuda_runtime", "name": "aiuLaunchKernel", "pid": host, "tid": host, "ts": t + 2,
+                   "dur": 4.0, "args": {"External id": ext, "correlation": corr}})
+        ev.append({"ph": "X", "cat": "gpu_memcpy", "name": "Memcpy (HtoD)", "pid": 0, "tid": 7, "ts": t + 8, "dur": 3.0,
+                   "args": {"External id": ext, "correlation": corr, "device": 0, "stream": 7, "bytes": 4096}})
+        ev.append({"ph": "X", "cat": "kernel", "name": f"mm_kernel_{k % 2}", "pid": 0, "tid": 7, "ts": t + 12,
+                   "dur": 8.0 + rnd.randrange(4), "args": {"External id": ext, "correlation": corr, "device": 0, "stream": 7}})
+        ev.append({"ph": "X", "cat": "gpu_memcpy", "name": "Memcpy (DtoH)", "pid": 0, "tid": 7, "ts": t + 24, "dur": 3.0,
+                   "args": {"External id": ext, "correlation": corr, "device": 0, "stream": 7, "bytes": 4096}})
+        t += 50.0
+    return {"schemaVersion": 1, "deviceProperties": [{"id": 0, "name": "AIU"}], "distributedInfo": {"rank": rank},
+            "traceEvents": ev}
+
+
 def scenario_files(scen):
     from gen import scenario
-    if "testdata" in scen:
+    if "testdata" in scen or "torch" in scen:
         return None
     return scenario.scenario_events(R=scen["R"], groups=scen["groups"], kernels=scen["kernels"], seed=scen["seed"],
                                     xseg_step=12 if scen["R"] > 5 else 1)
@@ -389,6 +425,11 @@ def write_inputs(d, scen):
         shutil.copy(td / "sample_flex_3062_job_4.json", os.path.join(d, "flex_job.json"))
         shutil.copy(td / "sample_comp_log_ideal.txt", os.path.join(d, "comp_log.txt"))
         return [os.path.join(d, "flex_job.json")], ["-c", os.path.join(d, "comp_log.txt"), "--freq", "560:800"]
+    if "torch" in scen:
+        p = os.path.join(d, "torch_rank0.json")
+        with open(p, "w") as fh:
+            json.dump(torch_trace(n=scen["torch"], seed=scen["seed"]), fh)
+        return [p], []
     from lib import stage
     files = scenario_files(scen)
     paths = []
@@ -500,6 +541,28 @@ def completed_predecessor(rng, same_path_as=None):
     return r["error"] or str(r["rc"])
 
 
+def dialect_predecessor(dialect, rng):
+    """a COMPLETE run of the other input dialect in this process, with events of the categories whose
+    classifier expression differs between the dialects (acc_kernel, acc_datatransfer_HtoD/DtoH)"""
+    from gen import scenario
+    d = tempfile.mkdtemp(prefix="aiuverif_")
+    try:
+        if dialect == "TORCH":
+            paths, argv = write_inputs(d, {"torch": rng.randint(2, 5), "seed": rng.randint(0, 999)})
+        else:
+            files = scenario.scenario_events(R=2, groups=1, kernels=rng.randint(1, 2), seed=rng.randint(0, 999))
+            from lib import stage
+            paths = []
+            for name, evs in files.items():
+                stage.write_trace(os.path.join(d, name), evs)
+                paths.append(os.path.join(d, name))
+            argv = ["--freq", "512:512"]
+        rc, err = run_inproc(d, "pred", paths, argv)
+        return f"rc={rc} {err}".strip()
+    finally:
+        shutil.rmtree(d, ignore_errors=True)
+
+
 def creation_order_tmp():
     """a directory on a file system whose listing order follows creation order (tmpfs), or None"""
     for root in ("/dev/shm",):
@@ -548,7 +611,9 @@ def diff_snap(ref, got):
 
 
 VARIANTS_QUICK = ["seed:1", "seed:7", "I:3", "inproc", "inproc-again", "after:A", "after:abort-be", "after:abort-peer",
-                  "after:samepath-torch", "inproc-I"]
+                  "after:samepath-torch", "after:torch", "inproc-I"]
+# B = TORCH-dialect scenario; "after:flex" = a complete FLEX run before it (the other order of the dialect pair)
+VARIANTS_TORCH = ["seed:1", "I:3", "inproc", "after:flex", "inproc-again", "after:abort-be", "after:torch", "inproc-I"]
 
 
 def run_e2e_case(ctx: Ctx, case, pool, verbose=False):
@@ -584,6 +649,9 @@ def run_e2e_case(ctx: Ctx, case, pool, verbose=False):
                 if kind == "after":
                     if arg == "A":
                         note = "A: " + completed_predecessor(rng)
+                    elif arg in ("torch", "flex"):
+                        note = f"A({arg.upper()} dialect, complete): " + dialect_predecessor(arg.upper(), rng)
+                        ctx.count("e2e_other_dialect_predecessors", 1)
                     elif arg == "samepath-torch":
                         note = "A(same path, TORCH): " + completed_predecessor(rng, same_path_as=paths[0])
                     else:
@@ -643,6 +711,14 @@ def gen_e2e_cases(ctx: Ctx):
         variants = list(VARIANTS_QUICK) if ctx.quick() else VARIANTS_QUICK + [f"seed:{s}" for s in rng.sample(range(100, 10 ** 6), 6)] + ["I:11"]
         rng.shuffle(variants)
         yield {"kind": "e2e", "scen": scen, "opts": optsets[k % len(optsets)] if k else [], "variants": variants, "seed": rng.randint(0, 10 ** 6)}
+    # TORCH-dialect runs under test (kernel / memcpy events), preceded by FLEX runs and vice versa: both orders of a
+    # dialect pair in one process, each compared with its own fresh-interpreter reference
+    for k in range(ctx.n(2, 8)):
+        variants = list(VARIANTS_TORCH)
+        if k % 2:
+            rng.shuffle(variants)
+        yield {"kind": "e2e", "scen": {"torch": rng.randint(2, 6), "seed": rng.randint(0, 10 ** 6)},
+               "opts": [[], ["--tb"], ["--flow"], ["-M"]][k % 4], "variants": variants, "seed": rng.randint(0, 10 ** 6)}
     # the compiler-log path (rcu_utilization keeps fingerprints built from hash(str))
     yield {"kind": "e2e", "scen": {"testdata": "flex+complog"}, "opts": [], "seed": rng.randint(0, 10 ** 6),
            "variants": ["seed:1", "seed:5", "seed:12345", "I:2", "inproc", "after:A", "after:abort-be", "inproc-again"]}
@@ -684,7 +760,10 @@ def oracle_on_case(ctx: Ctx, case, verbose=False, pool=None):
                 ctx.violation("glob-order", f"same files under the same paths, directory listing reversed ({r[3]}): {r[2]}", case)
             return {"results": [r]}
         results = run_e2e_case(ctx, case, pool, verbose)
-        for v, _nt, diff, note in results:
+        # report self-contained variants first (a subprocess, or an in-process run that brings its own predecessor):
+        # their replay reproduces in a fresh check process; plain in-process variants depend on what ran before
+        order = sorted(results, key=lambda r: 0 if (r[0].startswith(("seed", "I:", "after:")) or r[0] == "ref") else 1)
+        for v, _nt, diff, note in order:
             if v == "ref" and note:
                 ctx.violation("crash", note, case)
             elif diff:
@@ -732,6 +811,13 @@ def shrink(ctx: Ctx, case, classifier):
             return False
         return any(v["classifier"] == classifier for v in sub.violations)
     case = json.loads(json.dumps(case))
+    if case["kind"] == "e2e" and case["variants"] and case["variants"][0] in ("inproc", "inproc-again", "inproc-I"):
+        # make the replay self-contained: find a predecessor that reproduces it in a fresh process
+        for pred in ("after:flex", "after:torch", "after:A", "after:abort-be"):
+            c2 = dict(case, variants=[pred])
+            if bad(c2):
+                case = c2
+                break
     if case["kind"] == "hist":
         changed = True
         while changed and len(case["hist"]) > 1:
